@@ -295,6 +295,14 @@ def main(ctx: Ctx):
         if i % 5 == 3:
             Jt = faint_conflict(rng, dtype)
             one_matrix(ctx, exact_of(Jt), Jt, dtype, "adv:faint-conflict")
+        elif i % 10 == 7:
+            # small gradients: largest singular value between norm_eps (1e-4) and its square root (1e-2) — above the threshold,
+            # so the projection is required (a guard comparing s^2 with norm_eps would skip it)
+            Ji = m_int(rng, rng.choice([2, 3]), rng.choice([2, 3, 5]), kind="plain")
+            if all(v == 0 for r in Ji for v in r):
+                continue
+            Ji = [[v / 2 ** rng.choice([11, 12, 13]) for v in r] for r in Ji]
+            one_matrix(ctx, Ji, to_tensor(Ji, dtype), dtype, "small-scale-int")
         elif r < 0.6:
             Jt, kind = m_adv(rng, m, n, dtype)
             if not torch.isfinite(Jt).all():
